@@ -889,6 +889,9 @@ func garbage(k int, longLen int, s sets, light bool, emit func(item)) {
 		emit(item{x: Exp{Line: l + "\n", Form: "suffixed"}, pid: "77"})
 		emit(item{x: Exp{Line: l + " " + l, Form: "doubled"}, pid: "77"})
 		emit(item{x: Exp{Line: l + "\x00", Form: "suffixed"}, pid: "77"})
+		// what sshd's pre-authentication child really appends to its messages
+		emit(item{x: Exp{Line: l + " [preauth]", Form: "preauth-marker"}, pid: "77"})
+		emit(item{x: Exp{Line: l + " [preauth] [preauth]", Form: "preauth-marker"}, pid: "77"})
 		for _, p := range []string{"", "0", "-1", "abc", "1e3", "99999999999999999999", " 5", "+5"} { // (iii)
 			emit(item{x: Exp{Line: l, Form: "odd-pid"}, pid: p})
 		}
@@ -904,6 +907,14 @@ func runGarbage(t *testing.T, run *mc.Run, prop string) int {
 		k = 2
 	}
 	s := fieldSets(false)
+	if !run.Thorough() {
+		// quick: the valid lines that are mutated range over two to four values per field (plain and awkward ones)
+		s.users = []string{"a", "a.b-c_d@e$", "adm\xff\xfein"}
+		s.addrs = []string{"1.2.3.4", "fe80::1%eth0", "FE80::0001"}
+		s.keytypes = []string{"RSA", "ED25519", "XMSS"}
+		s.serials = []string{"0", "18446744073709551616"}
+		s.keyids = []string{"k", "a b", "x (serial 7)", "two  blanks"}
+	}
 	var sm sampler
 	var keyworded, emitted int64
 	if run.Replay != "" && prop == "C19" {
